@@ -114,6 +114,10 @@ def graph_job(args):
         before = g.adjacency_matrix.copy()
         st = Stabilizer(g)
         ok = adapt.gens_of_stabilizer(st) == G.graph_state_gens(n, adj) and np.array_equal(before, g.adjacency_matrix)
+        # graphs built from adjacency arrays of other dtypes (the dtype is part of the input)
+        for dt in (np.uint8, np.int64, np.bool_, np.int16, np.uint32):
+            gd = Graph(before.astype(dt))
+            ok = ok and adapt.gens_of_stabilizer(Stabilizer(gd)) == G.graph_state_gens(n, adj) and gd.compress() == gid
         out.append(("C14.graph_format", ok, f"graph:{n}:{gid}", f"Stabilizer(Graph {gid} on {n}) is not <X_v Z_N(v)> with + signs", {"n": n, "graph_id": gid}))
         if adj != tuple([0] * n):
             try:
@@ -151,7 +155,8 @@ def run(ctx: core.Ctx):
     from ..contracts import stab as SC
     sym = []
     for n in range(1, 7):
-        sym += [SC.case_init_tuple(n, True, "int8"), SC.case_init_tuple(n, False, "int8"), SC.case_init_tuple(n, True, "int64"), SC.case_init_graph(n)]
+        sym += [SC.case_init_tuple(n, True, "int8"), SC.case_init_tuple(n, False, "int8"), SC.case_init_tuple(n, True, "int64"), SC.case_init_tuple(n, True, "uint8")]
+        sym += [SC.case_init_graph(n, d) for d in ("int8", "uint8", "int64")]
     symrun.run(ctx, sym, label="sym")      # matrix and graph formats: VCs from the real constructor, all bit matrices / all graphs, n = 1..6
     jobs = [(strings_job, n) for n in range(1, 7 if not ctx.quick else 6)]
     res = core.pmap(lambda j: j[0](j[1]), jobs + [(all_lists_job, 0)] + [(formats_job, (n, ctx.seed + n, 200 if ctx.quick else 2000)) for n in range(2, 7)], chunks=1)
